@@ -36,18 +36,57 @@ def render_claims(c):
 
 
 def wrong_claims(c):
+    """wrong Exact claims at their ORIGIN: (node, statistic) pairs such that no descendant node has a wrong claim for the same
+    statistic or for num_rows (a wrong claim propagates upwards, a wrong row count into every other statistic; only the lowest
+    operator is blamed)"""
+    kids = {}
+    wrong = {}   # idx -> set of stats wrong (any partition)
+    for nd in c["nodes"]:
+        kids[nd["idx"]] = nd["kids"]
+        for cl in nd["claims"]:
+            if not cl["ok"]:
+                wrong.setdefault(nd["idx"], set()).add(cl["stat"])
+    desc_memo = {}
+
+    def desc(i):
+        if i not in desc_memo:
+            d = set()
+            for k in kids.get(i, []):
+                d.add(k)
+                d |= desc(k)
+            desc_memo[i] = d
+        return desc_memo[i]
     out = []
     for nd in c["nodes"]:
         for cl in nd["claims"]:
-            if not cl["ok"]:
+            if not cl["ok"] and not any(cl["stat"] in wrong.get(d, ()) or "num_rows" in wrong.get(d, ()) for d in desc(nd["idx"])):
                 out.append({"node": nd["name"], "partition": None if nd["part"] < 0 else nd["part"], "stat": cl["stat"],
                             "column": None if cl["col"] < 0 else cl["col"], "claimed_exact": cl["claimed"], "measured": cl["measured"]})
     return out
 
 
+JOINS = ("HashJoinExec", "SortMergeJoinExec", "NestedLoopJoinExec")
+
+
+def key_of(w):
+    """root-cause classes of the listed known findings; anything else is keyed by operator x statistic"""
+    op, st = w["node"].split("(")[0], w["stat"]
+    if st == "distinct_count" and w["claimed_exact"] == "1" and w["measured"] == "0":
+        return "C29-distinct_count-1-claimed-for-empty-output"
+    if st == "num_rows" and w["partition"] is None and op in ("LocalLimitExec", "SortExec", "CoalesceBatchesExec"):
+        return "C29-per-partition-fetch-applied-to-whole-node-num_rows"
+    if op in JOINS and st in ("null_count", "min_value", "max_value", "distinct_count", "sum_value"):
+        return "C29-join-output-keeps-input-column-statistics-exact"
+    if op == "DataSourceExec" and st in ("num_rows", "null_count"):
+        return "C29-memory-source-with-pushed-limit-keeps-unlimited-statistics"
+    if op == "UnionExec" and st in ("min_value", "max_value"):
+        return "C29-union-merges-exact-min-max-of-an-empty-input"
+    return "C29-%s-%s" % (op, st)
+
+
 def keys_of(c):
-    """stable keys: operator x statistic x (whole node | one partition)"""
-    return sorted({"C29-%s-%s-%s" % (w["node"], w["stat"], "whole" if w["partition"] is None else "partition") for w in wrong_claims(c)})
+    """stable keys: origin operator x statistic"""
+    return sorted({key_of(w) for w in wrong_claims(c)})
 
 
 def run(pid, tier, seed, replay):
@@ -81,7 +120,7 @@ def run(pid, tier, seed, replay):
     for c in ran:
         if not c["ok"]:
             for key in keys_of(c):
-                mine = [w for w in wrong_claims(c) if key == "C29-%s-%s-%s" % (w["node"], w["stat"], "whole" if w["partition"] is None else "partition")]
+                mine = [w for w in wrong_claims(c) if key == key_of(w)]
                 ck.fail_input("a statistic reported as Precision::Exact differs from the value measured on the executed node output: " + key,
                               {"id": c["id"], "stream": c["stream"], "desc": c["desc"], "tp": c["tp"], "bs": c["bs"], "opts": c["opts"], "seed": seed,
                                "wrong": mine[:6]}, key=key)
@@ -109,7 +148,7 @@ def run(pid, tier, seed, replay):
     ck.coverage.update({
         "evaluations": len(cases),
         "distinct_nontrivial": len(nt),
-        "rule": "plans: same zoo as C53 (C01-generator SQL, 55-statement SQL corpus x 9 option sets x partitions x batch sizes, random operator trees of depth 1-3 "
+        "rule": "plans: same zoo as C53 (C01-generator SQL, 57-statement SQL corpus x 9 option sets x partitions x batch sizes, random operator trees of depth 1-3 "
                 "over memory sources, fixed witness trees); every node, whole and per partition; non-trivial plan = at least 3 Exact claims were compared with "
                 "measured values. algebra: Precision<usize> add/sub/multiply/min/max/to_inexact and Statistics::with_fetch on values incl. 0, small, 2^32, "
                 "usize::MAX/2.., usize::MAX-2..usize::MAX; non-trivial = the result is Exact",
